@@ -78,7 +78,10 @@ class ReqSim(Sim):
         sc = self.sc
         fut = self.loop.create_future()
         self.log.append(('connect', host, port))
-        d = sc['direct']
+        # the first connect of the request gets sc['direct']; should the client connect again (it does not today), that
+        # attempt gets sc['direct_second'] (default: the same)
+        nth = sum(1 for x in self.log if x[0] == 'connect')
+        d = sc['direct'] if nth <= 1 else sc.get('direct_second', sc['direct'])
         if d == 'hang':
             return fut
         def fire():
@@ -217,6 +220,12 @@ class ReqSim(Sim):
             'inits': inits,
             'orphans': len(live_tasks),
             'attempts': dict(self.attempts),
+            # per peer-connection object: its ConnectionStateChangedEvent stream, registry membership, socket (C10's observables)
+            'streams': [{'incoming': bool(getattr(rec.conn, 'incoming', False)), 'reported': list(rec.reported),
+                         'registered': self.in_registry(rec.conn),
+                         'open': getattr(rec.conn, '_writer', None) is not None and not rec.conn._writer.is_closing(),
+                         'state': rec.conn.state.name}
+                        for rec in self.order if hasattr(rec.conn, 'incoming')],
             # sockets a connection object of the client holds open (an endpoint whose connect result was dropped because the
             # awaiting task was cancelled in the same instant is an artefact of the broker, not a socket of the client)
             'peer_eps_open': sum(1 for ep in self.peer_eps + self.pierce_eps if not ep.client_closed
